@@ -1,3 +1,3 @@
 from . import emitprops
 def run(tier, seed):
-    return emitprops.run('C16', tier, seed, extra_props=('C01',), compile_layer=True)
+    return emitprops.run('C16', tier, seed, extra_props=('C01',), compile_layer=True, exec_layer=True)
